@@ -39,11 +39,13 @@ func main() {
 		Rule: "histories of 60 (10%: 300, 1%: 1500) operations are generated per (max bytes, line limit) configuration (fixed list incl. max < one line, max == exactly k lines, odd max, line limit 1, max < line limit, the client's test and production constants; plus random ones): " +
 			"Printf 70% (pool lines of lengths 0..2x limit with shared prefixes so that truncations collide; fresh lines; lines sized to fit the free space exactly, with and without eviction of k oldest lines; strings with format verbs as format and as argument), " +
 			"ExpireLogs 18% (cut before all / after all / between / exactly on / 1 ns around stored timestamps, oldest-line-only, partial expiry of a repeated line), DumpLogEntries 12%. " +
+			"Natural-expiry scenarios (expiry 15 / 40 ms, real sleep >= 3x expiry): a filled log ending with line X, the sleep, then with no other call in between a repeat of X / an input that truncates to X / a fresh line that only fits if the expired bytes were given back / a fresh line then X, optionally followed by lines filling the log to exactly max, then a dump. " +
 			"Non-trivial = a history in which an expiry removed at least one line and a later fresh line was stored into space that only exists if the expired bytes were given back, or a later Printf needed an eviction; distinct by (configuration, history seed).",
 		Assumptions: []string{
-			"expiry is 1000 h, so the logger's own calls of ExpireLogs(time.Now()) inside Printf and DumpLogEntries remove nothing; every expiration is an explicit ExpireLogs call with a cut chosen by the harness",
+			"in the generated histories expiry is 1000 h, so the logger's own calls of ExpireLogs(time.Now()) inside Printf and DumpLogEntries remove nothing; every expiration is an explicit ExpireLogs call with a cut chosen by the harness",
 			"the oracle uses fmt.Sprintf and time.Time comparisons of the standard library as trusted base; the Go monotonic clock is non-decreasing across goroutines",
 			"a timestamp exactly equal to the cut may be kept or removed (the property text names cuts before, between and after only); equal last-update timestamps may be ordered / evicted either way",
+			"natural-expiry scenarios: the sleep only makes the old timestamps certainly expired (a longer sleep changes nothing); a scenario is judged only if the harness's clock read after the final dump is less than one expiry later than its read before the first call after the sleep (otherwise the new timestamps may legitimately have expired too: counted as undecidable)",
 			"the concurrent batches judge only the size bound, the line limit, dump self-consistency, panics and data races",
 			"memory taken by the timestamp lists of repeated lines is outside the property (it bounds the stored lines only)",
 		},
@@ -69,6 +71,9 @@ func main() {
 			c.Require("eviction_order_checks", 200)
 			c.Require("concurrent.dumps", 100)
 			c.Require("concurrent.printfs", 1000)
+			c.Require("natural.decided", 12)
+			c.Require("natural.repeat_of_expired_line_decided", 4)
+			c.Require("natural.fresh_into_expired_space_decided", 4)
 		},
 	})
 }
@@ -89,6 +94,9 @@ func plan(tier string, seed int64) []run.Batch {
 		for i := 0; i < 6; i++ {
 			add("conc", "race", 12, i)
 		}
+		for i := 0; i < 16; i++ {
+			add("natural", []string{"race", ""}[i%2], 40, i)
+		}
 		return bs
 	}
 	for i := 0; i < 8; i++ {
@@ -100,6 +108,9 @@ func plan(tier string, seed int64) []run.Batch {
 	for i := 0; i < 2; i++ {
 		add("conc", "race", 6, i)
 	}
+	for i := 0; i < 4; i++ {
+		add("natural", []string{"race", ""}[i%2], 14, i)
+	}
 	return bs
 }
 
@@ -109,6 +120,8 @@ func child(b run.Batch, r *ev.Result) {
 		childSeq(b, r)
 	case "conc":
 		childConc(b, r)
+	case "natural":
+		childNatural(b, r)
 	}
 }
 
@@ -785,6 +798,269 @@ func childSeq(b run.Batch, r *ev.Result) {
 		runHistory(b, r, i)
 		if r.NumViolations() >= 12 {
 			r.Note("stopped after %d histories: enough violations", i+1)
+			return
+		}
+	}
+}
+
+// ---------------------------------------------------------------- natural expiry
+
+type nop struct {
+	Raw  string `json:"input"`
+	Key  string `json:"line"`
+	TbNs int64  `json:"before_ns"`
+	TeNs int64  `json:"after_ns"`
+	tb   time.Time
+	te   time.Time
+}
+
+// naturalScenario exercises the logger's own time-based expiry inside Printf:
+// a log filled before a real sleep of >= 3 expiries, then calls whose first
+// one is the first to notice the expiry.
+func naturalScenario(b run.Batch, r *ev.Result, idx int) {
+	seed := b.Seed*1000003 + int64(idx)
+	rng := rand.New(rand.NewSource(seed))
+	E := []time.Duration{15 * time.Millisecond, 40 * time.Millisecond}[idx%2]
+	c := []cfg{{60, 10}, {40, 10}, {1000, 200}, {20, 10}, {64, 8}, {61, 10}, {200, 7}}[rng.Intn(7)]
+	variant := []string{"repeat", "repeat-truncated", "fresh-big", "repeat-then-fill", "fresh-then-repeat", "repeat-twice", "fresh-then-fill"}[(idx/2)%7]
+	run.Op("natural scenario %d seed=%d expiry=%v max=%d limit=%d variant=%s", idx, seed, E, c.Max, c.Limit, variant)
+	t0 := time.Now()
+	l := glow.NewEventLogger(E, c.Max, c.Limit)
+	var phase1, phase2 []*nop
+	failed := false
+	replay := func() interface{} {
+		return map[string]interface{}{"batch": b, "scenario": idx, "scenario_seed": seed, "expiry": E.String(), "config": c, "variant": variant,
+			"calls_before_sleep": phase1, "calls_after_sleep_then_dump": phase2}
+	}
+	fail := func(key, format string, a ...interface{}) {
+		if !failed {
+			r.Violationf(key, replay(), "natural expiry %v, config max=%d limit=%d, variant %s: %s", E, c.Max, c.Limit, variant, fmt.Sprintf(format, a...))
+		}
+		failed = true
+	}
+	printf := func(list *[]*nop, raw string) {
+		key := raw
+		if len(key) > c.Limit {
+			key = key[:c.Limit]
+		}
+		o := &nop{Raw: raw, Key: key}
+		*list = append(*list, o)
+		func() {
+			defer func() {
+				if p := recover(); p != nil {
+					fail("panic:"+run.Normalize(fmt.Sprint(p)), "Printf(%s) panicked: %v", q(raw), p)
+				}
+			}()
+			o.tb = time.Now()
+			l.Printf("%s", raw)
+			o.te = time.Now()
+		}()
+		o.TbNs, o.TeNs = int64(o.tb.Sub(t0)), int64(o.te.Sub(t0))
+	}
+	ctr := 0
+	fresh := func(n int) string {
+		ctr++
+		s := fmt.Sprintf("%d", ctr)
+		if n <= len(s) {
+			return s[:n]
+		}
+		return s + randText(rng, n-len(s))
+	}
+	maxLen := c.Limit
+	if c.Max/2 < maxLen {
+		maxLen = c.Max / 2
+	}
+	// X: at most half of what fits so that it can be stored next to other lines
+	xl := 1 + rng.Intn(maxLen)
+	X := "X" + randText(rng, xl-1)
+
+	// phase 1: fill the log (evictions may happen), X possibly repeated, X last so that it is certainly stored
+	printf(&phase1, X)
+	for i, n := 0, 2+rng.Intn(5); i < n && !failed; i++ {
+		if rng.Intn(4) == 0 {
+			printf(&phase1, X)
+		} else {
+			printf(&phase1, fresh(1+rng.Intn(maxLen)))
+		}
+	}
+	printf(&phase1, X)
+	if failed {
+		return
+	}
+	if rng.Intn(2) == 0 { // a dump before the sleep removes nothing; X must be there
+		m, _ := l.DumpLogEntries()
+		if _, ok := m[X]; !ok && time.Since(phase1[len(phase1)-1].tb) < E {
+			fail("newest-line-missing", "line %s is not in the dump taken right after it was logged", q(X))
+			return
+		}
+	}
+	end1 := time.Now()
+	time.Sleep(3*E + time.Duration(rng.Intn(3))*E/2)
+	for time.Since(end1) < 3*E {
+		time.Sleep(E)
+	}
+
+	// phase 2: no call other than these touches the logger
+	fill := func(used map[string]bool) {
+		room := c.Max
+		for k := range used {
+			room -= 2 * len(k)
+		}
+		for i := 0; i < 6 && room >= 2 && !failed; i++ {
+			n := room / 2
+			if n > c.Limit {
+				n = c.Limit
+			}
+			if i < 5 && n > 1 && rng.Intn(2) == 0 {
+				n = 1 + rng.Intn(n)
+			}
+			ln := fresh(n)
+			if used[ln] {
+				continue
+			}
+			used[ln] = true
+			printf(&phase2, ln)
+			room -= 2 * len(ln)
+		}
+	}
+	big := fresh(maxLen) // needs room that exists only if expired bytes were given back (the log was filled before the sleep)
+	switch variant {
+	case "repeat":
+		printf(&phase2, X)
+	case "repeat-truncated":
+		if len(X) == c.Limit {
+			printf(&phase2, X+"-tail that is cut off")
+		} else {
+			printf(&phase2, X)
+		}
+	case "fresh-big":
+		printf(&phase2, big)
+	case "repeat-then-fill":
+		printf(&phase2, X)
+		fill(map[string]bool{X: true})
+	case "fresh-then-repeat":
+		z := fresh(1 + rng.Intn(maxLen))
+		if 2*len(z)+2*len(X) > c.Max {
+			z = z[:0]
+		}
+		printf(&phase2, z)
+		printf(&phase2, X)
+	case "repeat-twice":
+		printf(&phase2, X)
+		printf(&phase2, X)
+	case "fresh-then-fill":
+		printf(&phase2, big)
+		fill(map[string]bool{big: true})
+	}
+	if failed {
+		return
+	}
+	var m map[string][]time.Time
+	var order []string
+	func() {
+		defer func() {
+			if p := recover(); p != nil {
+				fail("panic:"+run.Normalize(fmt.Sprint(p)), "DumpLogEntries panicked: %v", p)
+			}
+		}()
+		m, order = l.DumpLogEntries()
+	}()
+	de := time.Now()
+	if failed {
+		return
+	}
+	r.Eval(1)
+	r.Count("natural.scenarios", 1)
+	first := phase2[0]
+	if !de.Add(-E).Before(first.tb) {
+		// the calls after the sleep took longer than one expiry: their own timestamps may have expired
+		r.Count("natural.undecidable_slow", 1)
+		return
+	}
+	r.Count("natural.decided", 1)
+	switch variant {
+	case "repeat", "repeat-truncated", "repeat-then-fill", "repeat-twice":
+		r.Count("natural.repeat_of_expired_line_decided", 1)
+	case "fresh-big", "fresh-then-fill":
+		r.Count("natural.fresh_into_expired_space_decided", 1)
+	}
+	r.Nontrivial(fmt.Sprintf("natural/%d/%d/%s/%d", c.Max, c.Limit, variant, seed))
+
+	// expected: exactly the lines logged after the sleep (they fit together by construction), one timestamp per call, each inside its call
+	want := map[string][]*nop{}
+	sum := 0
+	for _, o := range phase2 {
+		if _, ok := want[o.Key]; !ok {
+			sum += 2 * len(o.Key)
+		}
+		want[o.Key] = append(want[o.Key], o)
+	}
+	if sum > c.Max {
+		r.Inconc(fmt.Sprintf("natural scenario generator error: lines after the sleep take %d > %d bytes", sum, c.Max))
+		return
+	}
+	got := 0
+	for k := range m {
+		got += 2 * len(k)
+	}
+	if got > c.Max {
+		fail("size-bound-exceeded", "dump holds %d bytes of lines, maximum %d", got, c.Max)
+		return
+	}
+	limitT := first.tb.Add(-E)
+	for k, ts := range m {
+		for _, t := range ts {
+			if t.Before(limitT) {
+				fail("expire-kept-expired-timestamp", "dump lists line %s with timestamp %v, more than one expiry older than the first call after the sleep (%v)", q(k), t.Sub(t0), first.tb.Sub(t0))
+				return
+			}
+		}
+		if _, ok := want[k]; !ok {
+			fail("phantom-line", "dump lists line %s which was not logged after the sleep", q(k))
+			return
+		}
+	}
+	last := phase2[len(phase2)-1]
+	for k, ops := range want {
+		ts, ok := m[k]
+		if !ok {
+			if k == last.Key {
+				fail("newest-line-missing", "line %s was logged again after all its earlier timestamps had expired (sleep >= 3 x %v, no other call in between) and is not in the dump taken %v later", q(k), E, de.Sub(last.tb))
+			} else {
+				fail("evicted-although-line-fits-after-expiry", "line %s logged after the sleep is missing from the dump although all lines logged after the sleep fit together (%d <= %d bytes): expired bytes were not reusable", q(k), sum, c.Max)
+			}
+			return
+		}
+		if len(ts) != len(ops) {
+			fail("newest-line-wrong-timestamps", "line %s was logged %d time(s) after the sleep and has %d timestamps", q(k), len(ops), len(ts))
+			return
+		}
+		for i, o := range ops {
+			if ts[i].Before(o.tb) || ts[i].After(o.te) {
+				fail("update-time-outside-call", "timestamp %d of %s is %v, the call ran from %v to %v", i, q(k), ts[i].Sub(t0), o.tb.Sub(t0), o.te.Sub(t0))
+				return
+			}
+		}
+	}
+	if len(order) != len(m) {
+		fail("dump-order-map-mismatch", "dump order lists %d lines, dump map has %d", len(order), len(m))
+		return
+	}
+	for i := 1; i < len(order); i++ {
+		a, bb := m[order[i-1]], m[order[i]]
+		if len(a) == 0 || len(bb) == 0 || last2(bb).Before(last2(a)) {
+			fail("dump-order-not-by-last-update", "dump order position %d was updated before position %d", i, i-1)
+			return
+		}
+	}
+}
+
+func last2(ts []time.Time) time.Time { return ts[len(ts)-1] }
+
+func childNatural(b run.Batch, r *ev.Result) {
+	for i := 0; i < b.N; i++ {
+		naturalScenario(b, r, i)
+		if r.NumViolations() >= 6 {
 			return
 		}
 	}
